@@ -475,7 +475,9 @@ def run(ctx: Ctx) -> None:
 
     # TLC runs are started in the background (each costs seconds of JVM start-up) while the main
     # thread records real executions; at most `ahead` universe runs are in flight / in memory
-    w = int(os.environ.get("VERIF_WORKERS", "0")) or "auto"
+    # quick universes are a few thousand states: 4 workers do (16 JVM workers only add scheduling
+    # pressure); the thorough universes use TLC's default
+    w = int(os.environ.get("VERIF_WORKERS", "0")) or ctx.pick(4, "auto")
     pool = ThreadPoolExecutor(max_workers=4)
 
     def tlc_bg(name, module, cfg, **kw):
